@@ -7,7 +7,7 @@ import ast
 from collections import namedtuple
 
 from .model import AnalysisError, dotted_name, norm
-from .normalise import clone
+from .normalise import clone, is_pure
 
 Event = namedtuple("Event", "kind node resolved extra")     # kind: test/assign/store/expr/return/raise/loop
 
@@ -99,9 +99,24 @@ def _assigned_names(stmts):
 
 
 class Explorer:
-    def __init__(self, max_paths=4000):
+    def __init__(self, max_paths=4000, opaque_calls=False):
         self.max_paths = max_paths
         self.count = 0
+        self.opaque_calls = opaque_calls
+        self.iterations = {}          # id(loop node) -> (loop node, index of the first event of the iteration, [PathState])
+
+    def _value(self, expr, st, node):
+        """Resolved value of an assignment's right-hand side.  With opaque_calls, the result of an impure call is
+        a token `<callee>#<k>` (k-th call of that callee on the path): objects are named by where they come from,
+        not by the variable that holds them."""
+        v = resolve(expr, st)
+        if self.opaque_calls and isinstance(v, ast.Call) and not is_pure(v):
+            callee = norm(v.func)
+            k = 1 + sum(1 for e in st.events if e.kind == "call" and e.extra.split("#")[0] == callee)
+            tok = f"{callee}#{k}"
+            st.events.append(Event("call", node, v, tok))
+            return ast.Name(id=tok, ctx=ast.Load())
+        return v
 
     def bind(self, target, value, st, node):
         if isinstance(target, ast.Name):
@@ -115,10 +130,8 @@ class Explorer:
                 for i, t in enumerate(target.elts):
                     self.bind(t, ast.Subscript(value=clone(value), slice=ast.Constant(value=i), ctx=ast.Load()), st, node)
         elif isinstance(target, ast.Attribute):
-            d = dotted_name(target)
-            if d:
-                # a store through an alias invalidates nothing we track by name except the same dotted path
-                st.env[d] = value
+            # field stores are events, not bindings: a later read of the field stays a field read (the object may
+            # be changed by any call in between)
             st.events.append(Event("store", node, value, norm(resolve_target(target, st))))
         elif isinstance(target, ast.Subscript):
             st.events.append(Event("store", node, value, norm(resolve_target(target, st))))
@@ -138,9 +151,22 @@ class Explorer:
                 raise AnalysisError(f"more than {self.max_paths} paths")
         return states
 
+    @staticmethod
+    def _invalidate(expr, st):
+        """A method call on a named object may change its fields: forget what was recorded for `name.*`."""
+        if expr is None:
+            return
+        for c in ast.walk(expr):
+            if isinstance(c, ast.Call) and isinstance(c.func, ast.Attribute):
+                r = dotted_name(c.func.value)
+                if r:
+                    for k in [k for k in st.env if k.startswith(r + ".")]:
+                        del st.env[k]
+
     def stmt(self, s, st):
         if isinstance(s, ast.Assign):
-            v = resolve(s.value, st)
+            v = self._value(s.value, st, s)
+            self._invalidate(s.value, st)
             for t in s.targets:
                 self.bind(t, v, st, s)
             return [st]
@@ -155,6 +181,7 @@ class Explorer:
             return [st]
         if isinstance(s, ast.Expr):
             st.events.append(Event("expr", s, resolve(s.value, st), None))
+            self._invalidate(s.value, st)
             return [st]
         if isinstance(s, ast.Return):
             st.events.append(Event("return", s, resolve(s.value, st) if s.value is not None else None, None))
@@ -180,7 +207,9 @@ class Explorer:
                 st.env[n] = ast.Name(id=n + tag, ctx=ast.Load())
             if isinstance(s, ast.While):
                 st.events.append(Event("loop", s, resolve(s.test, st), None))
+            start = len(st.events)
             inner = self.block(s.body, [st.fork()])
+            self.iterations[id(s)] = (s, start, inner)
             out = []
             for p in inner:
                 if p.status in ("return", "raise"):
@@ -253,14 +282,20 @@ def resolve_target(target, st):
     return c
 
 
-def paths(fn, max_paths=4000, env=None):
-    """All paths through fn (loops: one representative iteration), each with its resolved events."""
-    ex = Explorer(max_paths)
+def explore(fn, max_paths=4000, env=None, opaque_calls=False):
+    """Explorer with .paths (all paths through fn; loops contribute one representative iteration) and
+    .iterations (every path through one iteration of each loop)."""
+    ex = Explorer(max_paths, opaque_calls)
     out = ex.block(fn.body, [PathState(env)])
     for p in out:
         if p.status in ("break", "continue"):
             p.status = None
-    return out
+    ex.paths = out
+    return ex
+
+
+def paths(fn, max_paths=4000, env=None, opaque_calls=False):
+    return explore(fn, max_paths, env, opaque_calls).paths
 
 
 def expr_from(template, **parts):
